@@ -127,6 +127,22 @@ def cases(run):
             return "%d %d %d %d %d %s" % (d.en, d._type, d.vdim, d.div, d.mlen, cps(d.name))
         out.append(dict(cmd="chinfo_decode 3 %s" % common.hexs(data), impl=call(dec), oracle=None,
                         kind="chinfo-random-name-bytes", key=("hr", data)))
+    # --- derived attributes of the records the client builds (every type byte / flags byte)
+    from nxslib.dev import Device
+    for t in range(256):
+        fr = through(common.hexs(pr.frame_chinfo_encode(DeviceChannel(0, t, 1, "n"))))
+        d = ps.frame_chinfo_decode(fr, 0).data
+        from .c19 import pv
+        got = " ".join(pv(x) for x in (d._type, d.dtype, d.critical, d.type_res, d.is_valid, d.is_numerical))
+        low = t & 31
+        exp = " ".join(pv(x) for x in (t, low, t >= 128, t & 0x60, low != 0, low not in (0, 1, 18, 19)))
+        out.append(dict(cmd="chan_derived %d" % t, impl=got, oracle=exp, kind="derived-channel", key=("dc", t)))
+    for f in range(256):
+        d = Device(0, f, 0, []).data
+        from .c19 import pv
+        got = " ".join(pv(x) for x in (d.flags, d.div_supported, d.ack_supported))
+        exp = " ".join(pv(x) for x in (f, bool(f & 1), bool(f & 2)))
+        out.append(dict(cmd="dev_derived %d" % f, impl=got, oracle=exp, kind="derived-device", key=("dd", f)))
     # --- ack
     rs = [0, 1, -1, 2, -2, 2**31 - 1, -2**31, 255, 256, -22, 2**31, -2**31 - 1] + [rng.randrange(-2**31, 2**31) for _ in range(40)]
     for r in rs:
